@@ -142,7 +142,7 @@ def run(F, tier, res):
                 res.violate('CLI-WINS', 'fn=%s;field=%s' % (p, fld),
                             'opt.%s is overwritten from git config / features without checking that it was not given on the command line' % fld,
                             where=F.bodies[p]['mir']['span']['at'])
-    res.rule('C13.CLI-WINS', nw, 90, 'writes to cli::Opt fields in %s; each guarded by !user_supplied_option(<same field>) (%d guard calls) or in the exception table %s' % (
+    res.rule('C13.CLI-WINS', nw, 60, 'writes to cli::Opt fields in %s; each guarded by !user_supplied_option(<same field>) (%d guard calls) or in the exception table %s' % (
         [s.split('::')[-1] for s in setters], n_uso, sorted(exc_used)), discharged=okw)
 
     # ---------- PHASES
